@@ -82,18 +82,54 @@ var tick0 = time.Date(1969, 1, 1, 0, 0, 0, 0, time.UTC)
 
 const tickDur = 73 * 24 * time.Hour
 
-func TickTime(t int) time.Time { return tick0.Add(time.Duration(t) * tickDur) }
+// (calendar arithmetic, not time.Duration: a Duration overflows after 292 years, and batch
+// dates may lie in the first millennium)
+func TickTime(t int) time.Time { return tick0.AddDate(0, 0, 73*t) }
+
+const tickSecs = int64(73 * 24 * 3600)
 
 // TimeTick abstracts an instant; ok=false when it is not on the lattice.
 func TimeTick(x time.Time) (int, bool) {
-	d := x.UTC().Sub(tick0)
-	if d%tickDur != 0 {
-		// floor
-		q := int(d / tickDur)
-		if d < 0 {
-			q--
+	d := x.UTC().Unix() - tick0.Unix()
+	q := d / tickSecs
+	if d%tickSecs != 0 || x.Nanosecond() != 0 {
+		if d < 0 && d%tickSecs != 0 {
+			q-- // floor
 		}
-		return q, false
+		return int(q), false
 	}
-	return int(d / tickDur), true
+	return int(q), true
+}
+
+// The MARKET time domain (block times and sell order expirations) may carry a sub-second
+// part: with fineSeed != 0 tick t is rendered as TickTime(t) + fineOff(t), a fixed function
+// of the tick with 0 < fineOff < 1 s.  Order and equality of ticks are preserved exactly, so
+// every comparison the marketplace makes between these instants has the outcome the tick
+// model predicts, while real instants are not aligned to whole seconds.  (Not used for batch
+// dates and basket criteria, whose window arithmetic mixes block times and dates.)
+var fineSeed int64
+
+func fineOff(t int) time.Duration {
+	if fineSeed == 0 {
+		return 0
+	}
+	v := (fineSeed*7919 + int64(t)*104729) % 999999998
+	if v < 0 {
+		v += 999999998
+	}
+	return time.Duration(v + 1)
+}
+
+func MarketTime(t int) time.Time { return TickTime(t).Add(fineOff(t)) }
+
+func MarketTick(x time.Time) (int, bool) {
+	x = x.UTC()
+	t, ok := TimeTick(x)
+	if ok {
+		return t, fineSeed == 0 || true // an aligned instant is on the lattice in both modes
+	}
+	if fineSeed != 0 && x.Sub(TickTime(t)) == fineOff(t) {
+		return t, true
+	}
+	return t, false
 }
